@@ -7,6 +7,18 @@ ROOT = os.path.dirname(os.path.dirname(os.path.abspath(__file__)))
 ALL = ["C%02d" % i for i in range(1, 21)]
 
 CHECKS = {
+    "C02": dict(
+        cat="model_checking", ref="5 (C02), 4.17",
+        text="Protocol.tla specifies the estimator life cycle and what an observation of a call may show (row classes consistent "
+             "with a memo keyed by fit batch and item, width fixed at fit, fit returns self, model class equal for equal seed); "
+             "TLC generates call histories containing fit_transform(b) and fit(b); transform(b); they are replayed into 25 "
+             "estimator kinds x 2-6 configurations (every metric, input_method, method, memory_size, kernel, orientation, mask "
+             "setting, n_iter, return_type in the adapter tables) with the same integer seed, and Trace_Protocol.tla decides "
+             "each recorded history step by step. Exact equality with the definition for count/co-occurrence/encoding outputs "
+             "comes from C03/C06/C09/C16.",
+        note="Relational oracle (two implementation paths must agree on row classes at rtol 1e-7..1e-5); pools of 4-8 items; "
+             "SVD-compressed outputs with n_components 2-3 below the rank.",
+        tech="TLA+ protocol specification: TLC-generated call histories replayed, recorded observations validated by a trace spec"),
     "C03": dict(
         cat="model_checking", ref="5 (C03), 4.3",
         text="Cooc.tla / CoocMulti.tla / CoocNgram.tla state the matrices of the four sequence co-occurrence "
@@ -67,6 +79,26 @@ CHECKS = {
         note="Named precondition: some adjacent pair occurs twice (else training raises). The greedy pair choice is not part "
              "of the property and not constrained. Random corpora over {a,b}, {a,b,c} and unicode strings incl. lengths 0/1.",
         tech="TLA+ state machine (nondeterministic merges) model-checked + trace validation of recorded fits"),
+    "C12": dict(
+        cat="model_checking", ref="5 (C12), 4.17",
+        text="Protocol.tla: after Fit(b0) every Transform(b) must return Len(b) rows, each equal to the memo entry of its item "
+             "(duplicates give duplicate rows, permutations permute, concatenation = concatenated transforms) whatever knobs "
+             "(memory_size, chunk sizes, thread counts) were set in between; TLC generates fit->transform* histories over a pool "
+             "of 4 items (batches of <= 3 with repetitions) which are replayed into 19 row-wise estimator kinds and decided by "
+             "Trace_Protocol.tla.",
+        note="Row classes by tolerant equality (classes only merge); OS thread schedules are sampled through pool sizes, not "
+             "enumerated.",
+        tech="TLA+ protocol specification + TLC-generated histories + trace validation"),
+    "C13": dict(
+        cat="model_checking", ref="5 (C13), 4.17",
+        text="Protocol.tla clauses arguments_modified / constructor_parameter_objects_modified / temporary_files_left_behind / "
+             "same_seed_same_model and the memo (a later transform returns what an earlier one returned) are decided by "
+             "Trace_Protocol.tla on recorded histories over fit, fit_transform, transform, refit (same seed) and knob changes for "
+             "all 25 estimator kinds; observations are deep snapshots of arguments (incl. CSC with unsorted indices and explicit "
+             "zeros, unnormalised list distributions, user dictionaries), of the estimator and of a private TMPDIR. Fault "
+             "sequences: the data source of a blocked generator fit / transform raises part-way.",
+        note="'transform changed some attribute of the estimator' is reported as drift only (stricter than the statement).",
+        tech="TLA+ protocol specification + TLC-generated histories incl. fault steps + trace validation"),
     "C16": dict(
         cat="model_checking", ref="5 (C16), 4.8",
         text="LZ.tla is the parse state machine of lempel_ziv_based_encode (start, end, dictionary with insertion order, "
